@@ -1,7 +1,7 @@
 (* C09 - Saved configuration is the only input of later regenerations.
    Only statements; proofs live in theories/State. *)
 From Coq Require Import String.
-From BFG Require Import Base.Chars State.EnvStore State.EnvStoreProofs State.EnvJson State.EnvJsonProofs.
+From BFG Require Import Base.Chars State.EnvStore State.EnvStoreProofs State.EnvJson State.EnvJsonProofs State.EnvUpgradeProofs.
 
 (* After every sequence of operations on EnvVarDict(pairs) (every overridden mutator, reset, a JSON round trip
    in the middle, reads of changes), applying the recorded changes to the initial variables gives a mapping
@@ -89,3 +89,54 @@ Example C09_env_example :
                  (run [OSet (VStr (STR "CC")) (VStr (STR "clang"))] (init [(STR "CC", STR "gcc")])) in
   env_ok e.
 Proof. vm_compute. repeat split; repeat constructor; intros []. Qed.
+
+(* ---- older format versions: whenever the upgrade chain of Environment.load succeeds, on any machine (x), the
+   variables of the old document are the variables of the upgraded one *)
+
+(* before v13 there is one set of variables: it becomes both the initial and the current mapping *)
+Theorem C09_upgrade_variables_old : forall x v d d' vars,
+  upgrade x v d = Ok d' -> (v < 13)%N -> dget (STR "variables") d = Some vars ->
+  dget (STR "variables") d' = Some (JObj [(STR "initial", vars); (STR "current", vars)]).
+Proof. exact upgrade_variables_old. Qed.
+Print Assumptions C09_upgrade_variables_old.
+
+(* v13, v14: initial_variables / variables become initial / current *)
+Theorem C09_upgrade_variables_13_14 : forall x v d d' i c,
+  upgrade x v d = Ok d' -> (13 <= v)%N -> (v < 15)%N ->
+  dget (STR "initial_variables") d = Some i -> dget (STR "variables") d = Some c ->
+  dget (STR "variables") d' = Some (JObj [(STR "initial", i); (STR "current", c)]).
+Proof. exact upgrade_variables_13_14. Qed.
+Print Assumptions C09_upgrade_variables_13_14.
+
+(* from v15 on the variables entry is left alone; a document of the current version is not touched at all *)
+Theorem C09_upgrade_variables_new : forall x v d d',
+  upgrade x v d = Ok d' -> (15 <= v)%N -> dget (STR "variables") d' = dget (STR "variables") d.
+Proof. exact upgrade_variables_new. Qed.
+Print Assumptions C09_upgrade_variables_new.
+
+Theorem C09_upgrade_current : forall x d, upgrade x 17%N d = Ok d.
+Proof. exact upgrade_current. Qed.
+Print Assumptions C09_upgrade_current.
+
+(* non-vacuity: the v4 fixture of the test suite (test/data/environment/v4) upgrades and loads *)
+Example C09_upgrade_v4_example :
+  let x := mkExt (fun _ => Some (STR "4.3")) (STR "x86_64")
+                 (JArr [JStr (STR "share/"); JStr (STR "prefix"); JBool false])
+                 (JArr [JStr (STR "man/"); JStr (STR "datadir"); JBool false]) in
+  let doc := JObj [(STR "version", JNum 4); (STR "data", JObj [
+      (STR "bfgpath", JStr (STR "/path/to/bfg9000")); (STR "backend", JStr (STR "make"));
+      (STR "srcdir", JStr (STR "/root/srcdir")); (STR "builddir", JStr (STR "/root/builddir"));
+      (STR "install_dirs", JObj [(STR "prefix", JArr [JStr (STR "/root/prefix"); JStr (STR "absolute")]);
+                                 (STR "bindir", JArr [JStr (STR "bin"); JStr (STR "prefix")]);
+                                 (STR "libdir", JArr [JStr (STR "lib"); JStr (STR "prefix")]);
+                                 (STR "includedir", JArr [JStr (STR "include"); JStr (STR "prefix")])]);
+      (STR "platform", JStr (STR "linux"));
+      (STR "variables", JObj [(STR "HOME", JStr (STR "/home/user"))])])] in
+  match env_of_json x doc with
+  | Ok e => e_bfgdir e = mkPath (STR "/path/to") RAbsolute false true
+            /\ current (e_variables e) = [(STR "HOME", STR "/home/user")]
+            /\ initial (e_variables e) = [(STR "HOME", STR "/home/user")]
+            /\ map fst (e_install_dirs e) = [IPrefix; IBindir; ILibdir; IIncludedir; IExecPrefix; IDatadir; IMandir]
+  | _ => False
+  end.
+Proof. vm_compute. repeat split. Qed.
